@@ -234,9 +234,14 @@ def check_emission(col: Collector, repo: Repo):
                 and isinstance(st.target, ast.Name):
             for c in ast.walk(st):
                 if isinstance(c, ast.Call) and call_name(c) == "add_include" and c.args and src(c.args[0]) == st.target.id:
-                    ok_inc = True
+                    from sa.core.paths import guards as _guards, parent_map as _pm
+                    conds = [src(t)[:60] for t, _ in _guards(n, c, _pm(n)) if not isinstance(t, ast.Constant)]
+                    ok_inc = not conds
+                    if conds:
+                        col.info["include_forwarding_conditions"] = conds
     col.add("C12.R5", f.short, "forwards-every-include", ok_inc,
-            "handler must call add_include for every entry of the function's include_files", f.loc)
+            "handler must call add_include for every entry of the function's include_files, unconditionally: each query's generated_code starts without "
+            "includes, so `already requested` remembered anywhere else (visitor class, module) drops the header from every later query", f.loc)
     # argument reps from every argument via get_rep_value
     ok_args = False
     arg_var = None
@@ -259,6 +264,7 @@ def check_emission(col: Collector, repo: Repo):
                 j = holes[1].value
                 if isinstance(j, ast.Call) and call_name(j) == "join" and arg_var and arg_var in src(j):
                     ok_tpl = True
+                    _check_argument_text(col, repo, f, j, arg_var)
     col.add("C12.R5", f.short, "renders-name-and-all-args", ok_tpl,
             "C++ expression must be <cpp_name>(<all argument reps joined>)", f.loc)
     # the result type comes from the table's return type and from nothing else
@@ -288,6 +294,41 @@ def check_emission(col: Collector, repo: Repo):
     # result is registered on the node
     ok_set = any(isinstance(c, ast.Call) and call_name(c) == "set_rep" for c in ast.walk(n))
     col.add("C12.R5", f.short, "publishes-rep", ok_set, "handler must publish the value with set_rep", f.loc)
+
+
+def _check_argument_text(col: Collector, repo: Repo, f, join_call, arg_var):
+    """each argument's C++ text reaches the call whole: <rep>.as_cpp(), directly or through a helper that returns it uncut"""
+    from sa.props._tr import string_surgery
+    a = join_call.args[0] if join_call.args else None
+    ok, why = False, f"joined expression {src(a)[:80] if a is not None else None}"
+    if isinstance(a, (ast.ListComp, ast.GeneratorExp)) and len(a.generators) == 1 and src(a.generators[0].iter) == arg_var and not a.generators[0].ifs:
+        lv = src(a.generators[0].target)
+        e = a.elt
+        if isinstance(e, ast.Call) and call_name(e) == "as_cpp" and isinstance(e.func, ast.Attribute) and src(e.func.value) == lv and not string_surgery(a):
+            ok = True
+        elif isinstance(e, ast.Call) and [src(x) for x in e.args] == [lv]:
+            gs = repo.resolve_call(f, e)
+            if len(gs) == 1:
+                g = gs[0]
+                cut = string_surgery(g.node)
+                prm = g.node.args.args[0].arg if g.node.args.args else None
+                whole = any(isinstance(c, ast.Call) and call_name(c) == "as_cpp" and src(c.func.value) == prm for c in ast.walk(g.node))
+                if cut or not whole:
+                    why = f"arguments pass through {g.short}, which cuts or rewrites their text: {cut}" if cut else f"{g.short} does not render <rep>.as_cpp()"
+                else:
+                    ok = True
+            else:
+                col.defer(f"visit_function_ast renders its arguments through {src(e.func)}, which cannot be resolved: C12.R5 argument-text rule undecided")
+                ok = True
+        elif isinstance(e, ast.Name) and e.id == lv:
+            ok = False
+            why = "the representation object itself is joined, not its C++ text"
+    elif isinstance(a, ast.Call) and call_name(a) == "map":
+        col.defer("visit_function_ast joins its arguments through map(): C12.R5 argument-text rule undecided on this shape")
+        ok = True
+    col.add("C12.R5", f.short, "argument-text-passed-whole", ok,
+            "every argument must be rendered as the complete text of its representation: brackets that look like an outer pair need not be one "
+            f"(`(*p)->pt()` starts with '(' and ends with ')'); {why}", f.loc)
 
 
 def check_resolver(col: Collector, repo: Repo):
